@@ -153,10 +153,14 @@ package runtime
 //@ ensures[C03] forall k mathint :: 0 <= k && k < ncalls(condTrue) - 1 ==> !callres(condTrue, k, 0)
 //@ ensures[C03] ncalls(RunStmts) == 1 && ncalls(condTrue) >= 1 && callres(condTrue, ncalls(condTrue) - 1, 0) ==> callarg(RunStmts, 0, 1) == stmt.IfList[ncalls(condTrue) - 1].Block.Stmts
 //@ ensures[C03] ncalls(RunStmts) == 1 && !(ncalls(condTrue) >= 1 && callres(condTrue, ncalls(condTrue) - 1, 0)) ==> stmt.Else != nil && callarg(RunStmts, 0, 1) == stmt.Else.Stmts && ncalls(condTrue) == tomath(len(stmt.IfList))
+// C13 / C14: no condition is evaluated and no block entered once the exit flag was seen
+//@ ensures[C13,C14] forall k mathint :: 0 <= k && k < ncalls(RunStmt) ==> !callobs(RunStmt, k, exited)
+//@ ensures[C13,C14] forall k mathint :: 0 <= k && k < ncalls(RunStmts) ==> !callobs(RunStmts, k, exited)
 //@ loop 1
-//@ invariant[C03] ncalls(RunStmts) == 0 && ncalls(RunStmt) == tomath(rangeindex) + 1 && ncalls(condTrue) == tomath(rangeindex) + 1
-//@ invariant[C03] forall k mathint :: 0 <= k && k < ncalls(condTrue) ==> !callres(condTrue, k, 0) && callarg(condTrue, k, 0) == callres(RunStmt, k, 0) && callarg(condTrue, k, 1) == callres(RunStmt, k, 1)
-//@ invariant[C03] forall k mathint :: 0 <= k && k < ncalls(RunStmt) ==> callarg(RunStmt, k, 1) == stmt.IfList[k].Condition
+//@ invariant[C13,C14] forall k mathint :: 0 <= k && k < ncalls(RunStmt) ==> !callobs(RunStmt, k, exited)
+//@ invariant[C03,C13,C14] ncalls(RunStmts) == 0 && ncalls(RunStmt) == tomath(rangeindex) + 1 && ncalls(condTrue) == tomath(rangeindex) + 1
+//@ invariant[C03,C13,C14] forall k mathint :: 0 <= k && k < ncalls(condTrue) ==> !callres(condTrue, k, 0) && callarg(condTrue, k, 0) == callres(RunStmt, k, 0) && callarg(condTrue, k, 1) == callres(RunStmt, k, 1)
+//@ invariant[C03,C13,C14] forall k mathint :: 0 <= k && k < ncalls(RunStmt) ==> callarg(RunStmt, k, 1) == stmt.IfList[k].Condition
 
 // ---- C03: the scope chain -----------------------------------------------------------------------
 // "An assignment updates the nearest enclosing variable of that name or else creates one local to the
